@@ -39,7 +39,7 @@ def _merge(jobs, keys):
 
 # -- C01 -----------------------------------------------------------------------------------
 def r_raise_c01(ctx):
-    return R.raise_rule("R-RAISE/C01", _merge(R._c01_jobs(ctx), ("filter", "test_all", "data_filter")), R.EXEMPT, floor=25,
+    return R.raise_rule("R-RAISE/C01", _merge(R._c01_jobs(ctx), ("filter", "test_all", "data_filter")), R.exemptions(ctx), floor=25,
                         what="ConditionLike.filter / test_all / Data.filter")
 
 
@@ -52,7 +52,7 @@ def r_pure_c02(ctx):
 
 # -- C03 -----------------------------------------------------------------------------------
 def r_raise_c03(ctx):
-    return R.raise_rule("R-RAISE/C03", _merge(R._c01_jobs(ctx), ("get_data", "data_get")), R.EXEMPT, floor=20,
+    return R.raise_rule("R-RAISE/C03", _merge(R._c01_jobs(ctx), ("get_data", "data_get")), R.exemptions(ctx), floor=20,
                         what="DataPath.get_data / Data.get")
 
 
@@ -65,11 +65,11 @@ def r_pure_c03(ctx):
 
 # -- C07 -----------------------------------------------------------------------------------
 def r_raise_c07_validate(ctx):
-    return R.raise_rule("R-RAISE/C07:Schema.validate", R.validate_merged(ctx), R.EXEMPT, floor=12, what="Schema.validate")
+    return R.raise_rule("R-RAISE/C07:Schema.validate", R.validate_merged(ctx), R.exemptions(ctx), floor=12, what="Schema.validate")
 
 
 def r_raise_c07_rule_test(ctx):
-    return R.raise_rule("R-RAISE/C07:Rule.test", R.rule_test_merged(ctx), R.EXEMPT, floor=12, what="Rule.test")
+    return R.raise_rule("R-RAISE/C07:Rule.test", R.rule_test_merged(ctx), R.exemptions(ctx), floor=12, what="Rule.test")
 
 
 # -- C08 -----------------------------------------------------------------------------------
@@ -294,7 +294,7 @@ PROPERTIES = {
         assumptions=COMMON_ASSUMPTIONS + [SHAPE_ASSUMPTION],
     ),
     "C15": dict(
-        rules=[r_pure_c15, r_escape_c15, r_raise_c07_rule_test, S2.rule_looptry, S2.rule_guarded, SG.rule_castinv],
+        rules=[r_pure_c15, r_escape_c15, r_raise_c07_rule_test, S2.rule_looptry, S2.rule_guarded, SG.rule_castinv, S2.rule_lockstep],
         explanation=(
             "Clauses decided: (1) casts write only into a deep private copy (mutation analysis of Rule.test / Schema.validate: every write reachable from them targets the deepcopy, shared across a schema's rules); "
             "(2) nothing of the caller's is stored into the copy - only the freshly cast value; (3) a cast that fails (whatever the cast table's functions can raise) leaves the node and does not abort the other nodes "
@@ -315,7 +315,7 @@ PROPERTIES = {
         assumptions=COMMON_ASSUMPTIONS,
     ),
     "C17": dict(
-        rules=[S2.rule_thread, S2.rule_depth, r_pure_c17, SG.rule_tokens],
+        rules=[S2.rule_thread, S2.rule_depth, r_pure_c17, SG.rule_tokens, r_raise_c03],
         explanation=(
             "Clauses decided: (1) source_data is forwarded unchanged along every call edge from the rule test to argument resolution; (2) the resolver descends into every container kind in which the parser "
             "can place a path object (lists, tuples, mapping values), resolves with get_data(source_data, return_paths=False) and builds new containers; the parser stores whatever DataPath.from_spec returns "
